@@ -1191,6 +1191,11 @@ def pure_entry_loops(rep: Report):
             c.assume(L >= 0)
             fr.vars["diag"] = {"iterations": SymList(L, "iterations"), "converged": False, "iterations_run": 0}
 
+    def shrunk(it, fr):
+        m2 = SInt.var(cur().fresh_name("m_active"))
+        cur().assume(sand(m2 >= 1, m2 <= fr.vars["m_active"]))       # (bound discharged by the separate 'shrink' case)
+        return m2
+
     class ShrinkA(LoopRule):
         """while m_active > 1 and ...: m_active -= 1   keeps  1 <= m_active <= (its value before the loop)  - what the matrix-level case assumes"""
         modifies = ("m_active",)
@@ -1240,7 +1245,7 @@ def pure_entry_loops(rep: Report):
     first = zero_rule("H", formula_first, "first")
     first.modifies = tuple(first.modifies) + ("deflated_idx",)
     cases[QS] = {(QS, 2): at(MainAS(), None, "k<max_iterandm_active>1"), (QS, 3): at(first, "i", "range(1,m_active)"),
-                 (QS, 4): at(HavocAll({"m_active": lambda it, fr: fr.vars["m_active"]}), None, "m_active>1and_quat_scalar_abs(H[m_active-1,m_active-2])<=tol"),
+                 (QS, 4): at(HavocAll({"m_active": shrunk}), None, "m_active>1and_quat_scalar_abs(H[m_active-1,m_active-2])<=tol"),
                  (QS, 5): at(HavocAll({"subdiag_norm": lambda it, fr: SReal.var(cur().fresh_name("sdn"))}), "i", "range(1,m_active)"),
                  (QS, 7): at(zero_rule("H_tmp", formula_second, "second"), "i", "range(1,m_active)"),
                  (QS, 9): at(HavocAll({"H_final": arb("Hfin")}), "i", "range(n)")}
